@@ -1,0 +1,7 @@
+//! Verification facade (compiled only with `--cfg surrealkv_verif`).
+//!
+//! Plain-data wrappers around crate-private functions so that an external
+//! harness can run them on generated inputs. Nothing here is used by the
+//! crate itself; with the cfg flag off this module does not exist.
+
+pub mod wal;
